@@ -512,6 +512,8 @@ def resolved_call_name(fn: ast.AST, call: ast.Call, _cache: Dict[int, Dict] = {}
             names.add(f"{ast.unparse(v.args[0])}.{v.args[1].value}")
         elif isinstance(v, ast.Attribute):
             names.add(ast.unparse(v))
+        elif isinstance(v, (ast.Name, ast.Constant)):
+            continue  # a sentinel/None placeholder on the path where the method is absent (never called there)
         else:
             return nm
     return names.pop() if len(names) == 1 else nm
